@@ -4,11 +4,12 @@ import Cppcheck.Proofs.GccArgs
 C32 — property theorems: the compilation-database import recovers the options the compile command
 specifies.
 
-* `Shell.split_quote`            command-string form: splitting what a build system quoted gives the vector back
+* `Shell.split_quote_partial`    command-string form: splitting what a build system quoted (piecewise, five styles) gives the vector back
+* `Shell.split_quote`            the same for whole-argument quoting
 * `GccArgs.parseArgs_eq_spec_partial`   argument-vector form: `parseArgs` = GCC's reading, on `clean` vectors
 * `GccArgs.parseArgs_eq_spec_counterexample`   the unrestricted statement is false of the code (F12)
 * `GccArgs.defines_normal_form`  `fsSetDefines` on the string `parseArgs` builds
-* `import_command_eq_spec`              both halves composed
+* `GccArgs.import_eq_spec_partial`      the whole import (`Import.importEntries`, the function the driver runs) = what the database specifies
 * `GccArgs.fix_0f74657_conservative`    the out-of-bounds repair changed no defined behaviour
 -/
 namespace Cppcheck.Shell
@@ -23,16 +24,41 @@ theorem split_quote (l : List (Style × Nat × Str)) (h : ∀ x ∈ l, argOk x =
   | nil => simp [collectArgs, quote, go, flush]
   | cons x r =>
     obtain ⟨sty, pad, a⟩ := x
-    have hx := h (sty, pad, a) (by simp)
-    simp only [argOk, Bool.and_eq_true, Bool.not_eq_true', Bool.or_eq_true, bne_iff_ne, ne_eq, List.isEmpty_eq_false_iff] at hx
-    have hb : sty = .bare → bareOk a = true := by
-      intro hs; rcases hx.2 with h1 | h1
-      · exact absurd hs h1
-      · exact h1
+    obtain ⟨hne, hb, he⟩ := argOk_iff.mp (h (sty, pad, a) (by simp))
     have hr : ∀ x ∈ r, argOk x = true := fun x hx' => h x (by simp [hx'])
     simp only [collectArgs, quote]
-    rw [go_quoteArg sty a hb, go_quoteTail r hr ([] ++ a) (by simpa using hx.1)]
+    rw [go_quoteArg sty a hb he, go_quoteTail r hr ([] ++ a) (by simpa using hne)]
     simp
+
+/-- **C32, command-string half, piecewise quoting (partial).**  Every argument is written as a sequence of
+    pieces, each in its own style — bare (no blank, quote character, backslash), `"…"` with `\\ \"`, `'…'` with
+    `'\''`, shlex `'"'"'`, or backslash-escaped characters outside quotes (`\\ \" \' \␣`) — so a quote may open in
+    the middle of an argument (`-DMSG="a b"`, `-DV=\"1.0\"`, `a\ b`).  Splitting the command string returns
+    exactly the arguments, for every vector of non-empty arguments.  What is excluded is what the code gets
+    wrong: backslash escapes of other characters (`dollar_escape_kept`) and empty arguments. -/
+theorem split_quote_partial (l : List (Nat × List (Style × Str))) (h : ∀ x ∈ l, segsOk x = true) :
+    collectArgs (quoteCmd l) = .ok (l.map fun x => segText x.2) := by
+  cases l with
+  | nil => simp [collectArgs, quoteCmd, go, flush]
+  | cons x r =>
+    obtain ⟨pad, segs⟩ := x
+    have hx := h (pad, segs) (by simp)
+    simp only [segsOk, Bool.and_eq_true, Bool.not_eq_true', List.isEmpty_eq_false_iff, List.all_eq_true] at hx
+    have hr : ∀ x ∈ r, segsOk x = true := fun x hx' => h x (by simp [hx'])
+    simp only [collectArgs, quoteCmd]
+    rw [go_quoteSegs segs hx.2, go_cmdTail r hr ([] ++ segText segs) (by simpa using hx.1)]
+    simp
+
+/-- CMake's Unix style: `cc -DV=\"1.0\" -DMSG="a b" a\ b.c` -/
+example :
+    let l : List (Nat × List (Style × Str)) :=
+      [(0, [(.bare, "cc".toList)]),
+       (0, [(.bare, "-DV=".toList), (.esc, "\"".toList), (.bare, "1.0".toList), (.esc, "\"".toList)]),
+       (0, [(.bare, "-DMSG=".toList), (.dq, "a b".toList)]),
+       (1, [(.bare, "a".toList), (.esc, " ".toList), (.bare, "b.c".toList)])]
+    l.all segsOk = true ∧ quoteCmd l = "cc -DV=\\\"1.0\\\" -DMSG=\"a b\"  a\\ b.c".toList ∧
+    collectArgs (quoteCmd l) = .ok ["cc".toList, "-DV=\"1.0\"".toList, "-DMSG=a b".toList, "a b.c".toList] := by
+  decide +kernel
 
 /-- the hypothesis is satisfiable by arguments that need every kind of quoting -/
 example : ([(.bare, 0, "cc".toList), (.dq, 2, "-DMSG=\"a b\\\"".toList), (.sq, 0, "it's".toList),
@@ -57,7 +83,7 @@ open Cppcheck.Wire Spec
 /-- **C32, `fsSetDefines`.**  For every list of representable definitions (`defOk`: non-empty, no `;`, not
     starting with `=`, `(` or `%(`) the string `parseArgs` accumulates is normalised to the `;`-separated
     list in which every value-less definition got `=1`. -/
-theorem defines_normal_form (ds : List Str) (h : ∀ d ∈ ds, defOk d = true) :
+theorem defines_normal_form_partial (ds : List Str) (h : ∀ d ∈ ds, defOk d = true) :
     fsSetDefines (joinDefs ds) = normal ds :=
   fsSetDefines_joinDefs ds h
 
@@ -75,11 +101,8 @@ theorem semicolon_define_counterexample :
     include paths, definitions, undefinitions and standard that GCC's reading of the vector specifies. -/
 theorem parseArgs_eq_spec_partial (args : List Str) (h : clean args = true)
     (hd : ∀ d ∈ (gcc args {}).defines, defOk d = true) :
-    parseArgs args = (gcc args {}).toFS := by
-  have hl := loop_eq_gcc args h {}
-  have h0 : ({} : Opts).toRaw = ({} : FS) := rfl
-  rw [h0] at hl
-  simp only [parseArgs, hl, Opts.toRaw, Opts.toFS, fsSetDefines_joinDefs _ hd]
+    parseArgs args = (gcc args {}).toFS :=
+  parseArgs_eq_gcc args h hd
 
 /-- the hypotheses are satisfiable by a realistic command line using every option form -/
 example :
@@ -101,7 +124,7 @@ theorem spec_of_render (l : List Opt) (h : ∀ x ∈ l, x.wf = true) : gcc (rend
 
 /-- **C32 in generator form**: the options `parseArgs` recovers from a rendered command line are the options
     that were put into it -/
-theorem parseArgs_render (l : List Opt) (hwf : ∀ x ∈ l, x.wf = true) (hc : clean (render l) = true)
+theorem parseArgs_render_partial (l : List Opt) (hwf : ∀ x ∈ l, x.wf = true) (hc : clean (render l) = true)
     (hd : ∀ d ∈ (meaning l {}).defines, defOk d = true) :
     parseArgs (render l) = (meaning l {}).toFS := by
   have := parseArgs_eq_spec_partial (render l) hc (by rw [spec_of_render l hwf]; exact hd)
@@ -157,20 +180,53 @@ theorem fix_0f74657_conservative (args : List Str) (fs r : FS) (h : Before0f7465
 
 end Cppcheck.GccArgs
 
-namespace Cppcheck
-open Cppcheck.Wire Cppcheck.Shell Cppcheck.GccArgs
+namespace Cppcheck.GccArgs
+open Cppcheck.Wire Cppcheck.Shell Spec Import
 
-/-- what `importCompileCommands` does with the "command" string of an entry -/
-def importCommand (cmd : Str) : Option FS :=
-  match collectArgs cmd with
-  | .ok args => some (parseArgs args)
-  | .missingQuote => none
+/-- a "command" string written piecewise from a vector is read back as that vector by the import -/
+theorem entryArgs_command_quote (l : List (Nat × List (Style × Str))) (h : ∀ x ∈ l, segsOk x = true) :
+    entryArgs (.command (quoteCmd l)) = some (l.map fun x => segText x.2) := by
+  simp only [entryArgs, split_quote_partial l h]
 
-/-- **C32, composed.**  A command string quoted from a clean vector yields the specified options. -/
-theorem import_command_eq_spec (l : List (Style × Nat × Str)) (hq : ∀ x ∈ l, argOk x = true)
-    (h : clean (l.map (·.2.2)) = true) (hd : ∀ d ∈ (Spec.gcc (l.map (·.2.2)) {}).defines, defOk d = true) :
-    importCommand (quote l) = some (Spec.gcc (l.map (·.2.2)) {}).toFS := by
-  simp only [importCommand, split_quote l hq]
-  exact congrArg some (parseArgs_eq_spec_partial _ h hd)
+/-- **C32, whole import (partial).**  `Import.importEntries` is the model of `importCompileCommands` that the
+    driver executes against the real function.  For EVERY database whose entries are `goodEntry` — an accepted
+    source file, "arguments" array or "command" string that `collectArgs` splits, `clean` vector, representable
+    `-D` values, plain `-I` values, absolute `-isystem` values — the import succeeds without error and yields, per entry and in order, the
+    path of the file, its per-path index, and exactly the settings the entry specifies: `Spec.gcc`'s
+    definitions, undefinitions, standard and system include paths, and the `-I` values de-duplicated (first
+    wins) and resolved against `directory` (`Import.incSpec`). -/
+theorem import_eq_spec_partial (es : List Entry) (h : ∀ e ∈ es, goodEntry e = true) :
+    importEntries es 0 [] = ⟨true, 0, specImport es []⟩ :=
+  importEntries_eq_spec es h 0 []
 
-end Cppcheck
+/-- the auditor's instance, both forms, plus a repeated file: `-Iinc` in `/w` is `/w/inc/` -/
+example :
+    let es : List Entry :=
+      [⟨"/w".toList, some "a.c".toList, .command (quoteCmd [(0, [(.bare, "cc".toList)]), (0, [(.bare, "-Iinc".toList)]),
+          (0, [(.bare, "-DMSG=".toList), (.dq, "a b".toList)]), (0, [(.bare, "-c".toList)]), (0, [(.bare, "a.c".toList)])])⟩,
+       ⟨"/w/".toList, some "/w/a.c".toList, .arguments (["cc", "-I", "/opt/i", "-I../x/inc", "-Iinc", "-UY", "-std=c99", "-c", "a.c"].map String.toList)⟩]
+    es.all goodEntry = true ∧
+    specImport es [] =
+      [⟨"/w/a.c".toList, 0, { includePaths := ["/w/inc/".toList], defs := "MSG=a b".toList }⟩,
+       ⟨"/w/a.c".toList, 1, { includePaths := ["/opt/i/".toList, "/x/inc/".toList, "/w/inc/".toList],
+                              undefs := ["Y".toList], standard := "c99".toList }⟩] := by
+  decide +kernel
+
+/-- why `-isystem` values must be absolute: the import keeps them verbatim, the compiler resolves a relative one
+    against `directory` (finding `isystem-relative-not-resolved`) -/
+theorem isystem_relative_counterexample :
+    (importEntries [⟨"/w".toList, some "a.c".toList, .arguments (["cc", "-isystem", "sys", "-c", "a.c"].map String.toList)⟩] 0 []).files.map
+        (fun f => f.fs.systemIncludePaths) = [["sys".toList]] ∧
+    (specImport [⟨"/w".toList, some "a.c".toList, .arguments (["cc", "-isystem", "sys", "-c", "a.c"].map String.toList)⟩] []).map
+        (fun f => f.fs.systemIncludePaths) = [["/w/sys".toList]] := by
+  decide +kernel
+
+/-- F12 at import level: the statement without `goodEntry` (here: `clean`) is false of the code -/
+theorem import_eq_spec_counterexample :
+    ¬ ∀ es : List Entry, importEntries es 0 [] = ⟨true, 0, specImport es []⟩ := by
+  intro h
+  have h1 := h [⟨"/w".toList, some "a.c".toList, .arguments (["cc", "-c", "a.c", "-o", "/Downloads/a.o"].map String.toList)⟩]
+  have h2 := congrArg (fun r => r.files.map fun f => f.fs.defs) h1
+  exact absurd h2 (by decide +kernel)
+
+end Cppcheck.GccArgs
